@@ -63,8 +63,8 @@ Print Assumptions C03_radius_allow_iff.
    (any IPCP/IPv6CP packet, RA/NA, pool allocation, lifecycle-Active, southbound add) for the slot is preceded
    by an allowed AAA answer for the request that slot most recently published, with no authentication reset
    (new PADR, LCP leaving Opened, termination) in between. *)
-Theorem C03_gate : forall v pool evs i, vrep v = true ->
-  mon_run i (snd (run v (init pool) evs)) mon0 <> None.
+Theorem C03_gate : forall v pool p6 ppd evs i, vrep v = true -> vhl v = true ->
+  mon_run i (snd (run v (init3 pool p6 ppd) evs)) mon0 <> None.
 Proof. exact GateMain.gate. Qed.
 Print Assumptions C03_gate.
 Example C03_gate_nonvacuous :
@@ -81,9 +81,9 @@ Print Assumptions C03_gate_nonvacuous.
    no allowed AAA answer has arrived for a request it had outstanding — the answer was a reject, an error, is still
    missing, belonged to another request, or nothing was ever asked.  Then, after ANY history, the slot's session holds
    nothing (no pool lease, no IPv4 address, not in Network/Open) and both NCP automata are in Initial/Starting/Closed. *)
-Theorem C03_unaccepted_inert : forall v pool evs i s, vrep v = true ->
-  nth_error (sl (fst (run v (init pool) evs))) i = Some s ->
-  ever_ok i (snd (run v (init pool) evs)) mon0 false = false ->
+Theorem C03_unaccepted_inert : forall v pool p6 ppd evs i s, vrep v = true -> vhl v = true ->
+  nth_error (sl (fst (run v (init3 pool p6 ppd) evs))) i = Some s ->
+  ever_ok i (snd (run v (init3 pool p6 ppd) evs)) mon0 false = false ->
   inert s = true.
 Proof. exact GateMain.reject_clean. Qed.
 Print Assumptions C03_unaccepted_inert.
@@ -106,20 +106,21 @@ Print Assumptions C03_unaccepted_inert_nonvacuous.
 (* C03_reject_clean.  After ANY history, when a reject or error answer arrives for the request a live session has
    outstanding (the only way an answer has any effect: C03_aaa_correlation, C03_aaa_unmatched_ignored), then in that
    very step the pool gets back the lease the session held ([lease s]: 1 iff it holds a pool lease that is its current
-   address) and the session is out of the indexes; and whatever happens afterwards — client frames, timers, further
+   address; [add6]: the IA_NA addresses and delegated prefixes s.IPv6Address / s.IPv6Prefix or a named provider lease
+   refer to, Model.released) and the session is out of the indexes; and whatever happens afterwards — client frames, timers, further
    answers, dataplane completions — it stays out until the subscriber's next PADR.  With C03_unaccepted_inert
    (never-accepted attempts, incl. missing decisions, hold nothing) and C03_gate (nothing is served meanwhile) this is
    the "reject / error / missing decision leaves nothing" clause for the step function HEAD runs.
    Not claimed: a session whose address was replaced by a later Framed-IP accept while it still held a pool lease does
    not return that lease in terminate ([lease] = 0 there) — allocator conservation, C02. *)
-Theorem C03_reject_clean : forall v pool evs1 k a evs2 i, vrep v = true -> allowed_of a = false ->
-  find_idx (pend_matches v k) (sl (fst (run v (init pool) evs1))) 0 = Some i ->
+Theorem C03_reject_clean : forall v pool p6 ppd evs1 k a evs2 i, vrep v = true -> allowed_of a = false ->
+  find_idx (pend_matches v k) (sl (fst (run v (init3 pool p6 ppd) evs1))) 0 = Some i ->
   Forall (fun e => e <> EvOpen i) evs2 ->
-  let st1 := fst (run v (init pool) evs1) in
+  let st1 := fst (run v (init3 pool p6 ppd) evs1) in
   let st2 := fst (step v st1 (EvAAA k a)) in
   exists s s3,
     nth_error (sl st1) i = Some s /\ live s = true /\ pend s = Some k /\
-    free st2 = free st1 + lease s /\
+    free st2 = free st1 + lease s /\ free6 st2 = add6 (free6 st1) s /\
     nth_error (sl (fst (run v st2 evs2))) i = Some s3 /\ live s3 = false.
 Proof. exact GateReject.reject_clean_run. Qed.
 Print Assumptions C03_reject_clean.
@@ -130,7 +131,8 @@ Theorem C03_reject_clean_step : forall v st k a i, vrep v = true -> allowed_of a
     nth_error (sl st) i = Some s /\ live s = true /\ pend s = Some k /\
     nth_error (sl (fst (step v st (EvAAA k a)))) i = Some s' /\
     live s' = false /\ ph s' = PTerminate /\
-    free (fst (step v st (EvAAA k a))) = free st + lease s.
+    free (fst (step v st (EvAAA k a))) = free st + lease s /\
+    free6 (fst (step v st (EvAAA k a))) = add6 (free6 st) s.
 Proof. exact GateReject.reject_step_clean. Qed.
 Print Assumptions C03_reject_clean_step.
 Definition ev_reauth := ev_pending ++ [EvAAA 1 AAcc; EvFrame 0 (FrLcp (FCreq QGood)); EvFrame 0 (FrLcp (FCack true));
@@ -176,27 +178,87 @@ Example C03_link_end_teardown_nonvacuous :
 Proof. intros evs e. repeat split; timeout 20 (vm_compute; reflexivity). Qed.
 Print Assumptions C03_link_end_teardown_nonvacuous.
 
+(* IPv6 leases of a PPPoE session (IPv6 profile with an IA_NA pool and a PD pool; [init3 pool p6 ppd]).  C03_gate counts
+   every address or prefix taken from the registry as a service output (ghost GAlloc, emitted by Model.alloc6 and only
+   there), C03_unaccepted_inert says a never-accepted session has taken none ([holds_nothing] includes them), and
+   C03_reject_clean(_step) gives back what terminate releases ([add6]).  What is NOT proved: that on the repaired code a
+   torn-down session never keeps an IPv6 lease ([leaks] = false) — on both sides a monitor checks it at every teardown
+   (harness: the registry holds nothing for the session id; driver: Model.leaks), see notes.  On /repo HEAD it is false: *)
+Definition ev_open6 := ev_pending ++ [EvAAA 1 AAcc; EvFrame 0 (FrIp6cp (FCreq QGood)); EvFrame 0 (FrIp6cp (FCack true))].
+Example C03_ipv6_leases_nonvacuous :
+  let v := mkV true false in
+  let st := fst (run v (init3 2 16 16) ev_open6) in
+  (* nothing before the accept, not even for a DHCPv6 REQUEST; the IA_NA address at the accept *)
+  free6 (fst (run v (init3 2 16 16) ev_pending)) = (16, 16) /\
+  step v (fst (run v (init3 2 16 16) ev_pending)) (EvFrame 0 FrDh6Req) = (fst (run v (init3 2 16 16) ev_pending), []) /\
+  free6 st = (15, 16) /\
+  (* the prefix at the first DHCPv6 message; the REPLY binds both in the dataplane; PADT returns everything *)
+  map snd (snd (step v st (EvFrame 0 FrDh6Sol))) = [GAlloc; ODh6Adv] /\
+  map snd (snd (step v st (EvFrame 0 FrDh6Req))) = [GAlloc; ODh6Reply; OSb6Add; OSbPdAdd] /\
+  free6 (fst (run v st [EvFrame 0 FrDh6Sol; EvFrame 0 FrDh6Req])) = (15, 15) /\
+  free6 (fst (run v st [EvFrame 0 FrDh6Sol; EvFrame 0 FrDh6Req; EvPadt 0])) = (16, 16) /\
+  (* an exhausted IA_NA pool: the session opens without an address and only the prefix is bound *)
+  map snd (snd (step v (fst (run v (init3 2 0 16) ev_open6)) (EvFrame 0 FrDh6Req))) = [GAlloc; ODh6Reply; OSbPdAdd] /\
+  free6 (fst (run v (init3 2 0 16) (ev_open6 ++ [EvFrame 0 FrDh6Req; EvPadt 0]))) = (0, 16).
+Proof. intros v st. repeat match goal with |- _ /\ _ => split end; timeout 20 (vm_compute; reflexivity). Qed.
+Print Assumptions C03_ipv6_leases_nonvacuous.
+(* /repo HEAD (no link-end teardown): the re-authentication builds a new AllocCtx that does not know the session's
+   IA_NA address, the next DHCPv6 REQUEST takes a second one and rebinds, and the teardown returns only that one *)
+Example C03_ipv6_reneg_leak_refuted :
+  let evs := ev_open6 ++ [EvFrame 0 (FrLcp (FCreq QGood)); EvFrame 0 (FrLcp (FCack true)); EvFrame 0 FrChapResp; EvAAA 2 AAcc;
+                          EvFrame 0 (FrIp6cp (FCreq QGood)); EvFrame 0 (FrIp6cp (FCack true)); EvFrame 0 FrDh6Req; EvPadt 0] in
+  free6 (fst (run (mkV3 true false false) (init3 2 16 16) evs)) = (15, 16) /\
+  option_map leaks (nth_error (sl (fst (run (mkV3 true false false) (init3 2 16 16) evs))) 0) = Some true /\
+  free6 (fst (run (mkV true false) (init3 2 16 16) evs)) = (16, 16) /\
+  option_map leaks (nth_error (sl (fst (run (mkV true false) (init3 2 16 16) evs))) 0) = Some false.
+Proof. intros evs. repeat match goal with |- _ /\ _ => split end; timeout 20 (vm_compute; reflexivity). Qed.
+Print Assumptions C03_ipv6_reneg_leak_refuted.
+
+(* Held answers ([EvAAAHeld i k a]: the answer was matched to slot i's session before the previous event was handled and
+   gets the session lock only now; [vhl v = true] = fixes/C03_pppoe_aaa_answer_after_teardown.patch, /repo HEAD is
+   [vhl = false], known finding pppoe-aaa-answer-after-teardown).  C03_gate, C03_unaccepted_inert and
+   C03_renegotiation_reauth(_events) quantify over histories that contain held answers and need [vhl].  Without it: *)
+Example C03_held_answer_refuted :
+  let evs := ev_pending ++ [EvPadt 0; EvAAAHeld 0 1 AAcc] in
+  (* /repo HEAD: the accept is applied to the session PADT has just torn down: service outputs, leases nobody returns *)
+  mon_run 0 (snd (run (mkV3 true false false) (init3 2 16 16) evs)) mon0 = None /\
+  free (fst (run (mkV3 true false false) (init3 2 16 16) evs)) = 1 /\
+  free6 (fst (run (mkV3 true false false) (init3 2 16 16) evs)) = (15, 16) /\
+  option_map live (nth_error (sl (fst (run (mkV3 true false false) (init3 2 16 16) evs))) 0) = Some false /\
+  (* with the fix the held answer is dropped ... *)
+  mon_run 0 (snd (run (mkV true false) (init3 2 16 16) evs)) mon0 <> None /\
+  free (fst (run (mkV true false) (init3 2 16 16) evs)) = 2 /\
+  snd (step (mkV true false) (fst (run (mkV true false) (init3 2 16 16) (ev_pending ++ [EvPadt 0]))) (EvAAAHeld 0 1 AAcc)) = [] /\
+  (* ... and one that still finds its session live with the request outstanding is applied as usual *)
+  option_map ph (nth_error (sl (fst (run (mkV true false) (init3 2 16 16) (ev_pending ++ [EvTimer 0 TLcp; EvAAAHeld 0 1 AAcc])))) 0)
+    = Some PNetwork.
+Proof.
+  intros evs. repeat match goal with |- _ /\ _ => split end; try (timeout 20 (vm_compute; reflexivity)).
+  vm_compute. discriminate.
+Qed.
+Print Assumptions C03_held_answer_refuted.
+
 (* C03_renegotiation_reauth.  Split any history at a point where slot i's monitor holds no accept (mn1; in
    particular right after LCP left Opened, [C03_lcp_down_clears_accept]).  If in the continuation no allowed AAA
    answer arrives for the request the slot has most recently published, the continuation contains no service
    output (no IPCP/IPv6CP packet, RA/NA, allocation, activation, southbound add) for the slot. *)
-Theorem C03_renegotiation_reauth : forall v pool evs1 evs2 i mn1, vrep v = true ->
-  mon_run i (snd (run v (init pool) evs1)) mon0 = Some mn1 -> mok mn1 = false ->
-  accepted_in i (snd (run v (fst (run v (init pool) evs1)) evs2)) mn1 = false ->
-  no_service i (snd (run v (fst (run v (init pool) evs1)) evs2)) = true.
+Theorem C03_renegotiation_reauth : forall v pool p6 ppd evs1 evs2 i mn1, vrep v = true -> vhl v = true ->
+  mon_run i (snd (run v (init3 pool p6 ppd) evs1)) mon0 = Some mn1 -> mok mn1 = false ->
+  accepted_in i (snd (run v (fst (run v (init3 pool p6 ppd) evs1)) evs2)) mn1 = false ->
+  no_service i (snd (run v (fst (run v (init3 pool p6 ppd) evs1)) evs2)) = true.
 Proof. exact GateMain.reauth. Qed.
 Print Assumptions C03_renegotiation_reauth.
-Theorem C03_lcp_down_clears_accept : forall v pool evs e i mn1,
-  mon_run i (snd (run v (init pool) (evs ++ [e]))) mon0 = Some mn1 ->
-  lcp_down_for i (snd (step v (fst (run v (init pool) evs)) e)) = true -> mok mn1 = false.
+Theorem C03_lcp_down_clears_accept : forall v pool p6 ppd evs e i mn1,
+  mon_run i (snd (run v (init3 pool p6 ppd) (evs ++ [e]))) mon0 = Some mn1 ->
+  lcp_down_for i (snd (step v (fst (run v (init3 pool p6 ppd) evs)) e)) = true -> mok mn1 = false.
 Proof. exact GateMain.lcp_down_clears. Qed.
 Print Assumptions C03_lcp_down_clears_accept.
 (* the same on events only: LCP of slot i leaves Opened at event e; as long as no allowed AAA answer is
    delivered afterwards, nothing the client or the timers do produces a service output for the slot *)
-Theorem C03_renegotiation_reauth_events : forall v pool evs1 e evs2 i, vrep v = true ->
-  lcp_down_for i (snd (step v (fst (run v (init pool) evs1)) e)) = true ->
-  (forall k a, In (EvAAA k a) evs2 -> allowed_of a = false) ->
-  no_service i (snd (run v (fst (run v (init pool) (evs1 ++ [e]))) evs2)) = true.
+Theorem C03_renegotiation_reauth_events : forall v pool p6 ppd evs1 e evs2 i, vrep v = true -> vhl v = true ->
+  lcp_down_for i (snd (step v (fst (run v (init3 pool p6 ppd) evs1)) e)) = true ->
+  (forall e', In e' evs2 -> not_allowed e') ->      (* no allowed answer, delivered at once or held *)
+  no_service i (snd (run v (fst (run v (init3 pool p6 ppd) (evs1 ++ [e]))) evs2)) = true.
 Proof. exact GateMain.reauth_events. Qed.
 Print Assumptions C03_renegotiation_reauth_events.
 Example C03_renegotiation_reauth_nonvacuous :
@@ -209,16 +271,15 @@ Example C03_renegotiation_reauth_nonvacuous :
   option_map ph (nth_error (sl (fst (run v (init 2) evs1))) 0) = Some POpen /\
   lcp_down_for 0 (snd (step v (fst (run v (init 2) evs1)) e)) = true /\
   (* re-authentication rejected: hypotheses met *)
-  (forall k a, In (EvAAA k a) ([EvFrame 0 (FrLcp (FCack true)); EvFrame 0 FrChapResp; EvAAA 2 ARej] ++ probe) ->
-               allowed_of a = false) /\
+  (forall e', In e' ([EvFrame 0 (FrLcp (FCack true)); EvFrame 0 FrChapResp; EvAAA 2 ARej] ++ probe) -> not_allowed e') /\
   (* re-authentication accepted: service resumes, so the conclusion does depend on the hypothesis *)
   no_service 0 (snd (run v st1 ([EvFrame 0 (FrLcp (FCack true)); EvFrame 0 FrChapResp; EvAAA 2 AAcc] ++ probe))) = false /\
   (* the code before 8b06a36: accepted, renegotiated before IPCP converged: the probes are served without any new accept *)
   no_service 0 (snd (run (mkV3 false false false) (fst (run (mkV3 false false false) (init 2) (ev_pending ++ [EvAAA 1 AAcc; e]))) probe)) = false.
 Proof.
   intros v evs1 e st1 probe. repeat split; try (timeout 20 (vm_compute; reflexivity)).
-  intros k a H. cbn [app In] in H.
-  repeat (destruct H as [H|H]; [try discriminate H; inversion H; subst; reflexivity|]). destruct H.
+  intros e' H. cbn [app In] in H.
+  repeat (destruct H as [H|H]; [subst e'; cbn; auto|]). destruct H.
 Qed.
 Print Assumptions C03_renegotiation_reauth_nonvacuous.
 
@@ -234,11 +295,12 @@ Theorem C03_lcp_down_marked : forall v st e i,
 Proof. exact GateObs.lcp_down_marked. Qed.
 Print Assumptions C03_lcp_down_marked.
 (* (2) Allocation, without the ghost GAlloc: the number of free pool addresses (compared at every step) goes down only
-   in an allowed AAA answer that matches a live session's outstanding request, and then by exactly one. *)
+   in an allowed AAA answer — one that matches a live session's outstanding request, or one matched earlier and applied
+   now (EvAAAHeld) — and then by exactly one. *)
 Theorem C03_alloc_needs_accept : forall v st e,
   free (fst (step v st e)) < free st ->
-  exists k a i, e = EvAAA k a /\ allowed_of a = true /\ find_idx (pend_matches v k) (sl st) 0 = Some i /\
-                free st = S (free (fst (step v st e))).
+  exists k a i, (e = EvAAA k a /\ find_idx (pend_matches v k) (sl st) 0 = Some i \/ e = EvAAAHeld i k a) /\
+                allowed_of a = true /\ free st = S (free (fst (step v st e))).
 Proof. exact GateObs.alloc_needs_accept. Qed.
 Print Assumptions C03_alloc_needs_accept.
 Example C03_observables_nonvacuous :
@@ -251,7 +313,7 @@ Print Assumptions C03_observables_nonvacuous.
 
 (* Bounded: from each of 11 situations (fresh, LCP open, request pending, network, open, renegotiated,
    renegotiated with a request pending, re-authenticating, rejected, terminated, nothing) every sequence of TWO
-   events over the whole 87-event alphabet is accepted by the monitor, for both FSM tables. *)
+   events over the whole 97-event alphabet is accepted by the monitor, for both FSM tables. *)
 Theorem C03_gate_bounded_sweep : sweep2 (mkV true false) = true /\ sweep2 (mkV true true) = true.
 Proof. exact sweep2_repaired. Qed.
 Print Assumptions C03_gate_bounded_sweep.
@@ -283,7 +345,7 @@ Example C03_nonvacuous :
   option_map ph (nth_error (sl (fst r)) 0) = Some POpen /\ free (fst r) = 1 /\
   existsb (fun eo => existsb (fun io => service (snd io)) (snd eo)) (snd r) = true /\
   mon_run 0 (snd r) mon0 <> None /\
-  pend_matches (mkV true false) 1 (mkS true 1 PAuth fsm0 fsm0 fsm0 true 0 (Some 1) PtChap false false false ANone ANone ANone false) = true.
+  pend_matches (mkV true false) 1 (mkS true 1 PAuth fsm0 fsm0 fsm0 true 0 (Some 1) PtChap false false false ANone ANone ANone false v60) = true.
 Proof. vm_compute. repeat split; auto; discriminate. Qed.
 Print Assumptions C03_nonvacuous.
 
